@@ -27,7 +27,17 @@ def align_n(ctx, specs, join='outer', sort=False, axis=None, lk=None, dataset_at
     refs = []
     for i, (dims, sizes) in enumerate(specs):
         a, r = mk_operand(ctx, 'abcd'[i], dims, sizes, [lk.get('%s:%s' % ('abcd'[i], d), lk.get(d, 'i')) for d in dims], 'f')
-        if prime:
+        if prime == 'relabel':
+            # a label is edited in place and then put right again, the axis having been asked about its order in between:
+            # nothing cached about the temporary labels may survive
+            for ax, labs in zip(a.axes, r.labels):
+                if len(labs) >= 2:
+                    for j in (len(labs) // 2,):
+                        tmp = ctx.int('tmp%d_%s_%s' % (j, 'abcd'[i], ax.name))
+                        ax[j] = tmp
+                        ax.is_monotonic()
+                        ax[j] = labs[j]
+        elif prime:
             for ax in a.axes:
                 ax.is_monotonic()
         arrs.append(a)
@@ -165,6 +175,9 @@ def templates():
     add('mixed-int-real', 'align_n', cost=1, specs=[[['x'], [2]], [['x'], [2]]], lk={'a:x': 'i', 'b:x': 'f'})
     add('mixed-real-int-inner', 'align_n', cost=1, specs=[[['x'], [2]], [['x'], [2]]], lk={'a:x': 'f', 'b:x': 'i'}, join='inner')
     add('primed', 'align_n', cost=1, specs=[[['x'], [2]], [['x'], [2]]], prime=True)
+    add('relabelled-2x2', 'align_n', cost=2, specs=[[['x'], [2]], [['x'], [2]]], prime='relabel')
+    add('relabelled-3x2', 'align_n', cost=8, specs=[[['x'], [3]], [['x'], [2]]], prime='relabel')
+    add('relabelled-3x2-inner', 'align_n', 'thorough', cost=8, specs=[[['x'], [3]], [['x'], [2]]], prime='relabel', join='inner')
     add('primed-3x2-sort', 'align_n', cost=8, specs=[[['x'], [3]], [['x'], [2]]], prime=True, sort=True)
     # one array, three arrays
     for sort in (False, True):
